@@ -22,7 +22,8 @@ RULE = ("simulated elections (3-60 cards, 1-4 contests: plurality incl. multi-wi
         "manual record differs from its CVR and the election has a phantom or a pooled card; distinct = hash of the spec")
 REQUIRED = ["identities_checked", "assorter:plurality", "assorter:supermajority", "assorter:irv", "audit:CARD_COMPARISON",
             "audit:ONEAUDIT", "elections_with_phantoms", "elections_with_pooled_cards", "elections_with_pooled_phantoms",
-            "elections_with_unfindable_cards", "elections_with_missing_contest_mvr", "style_on", "style_off"]
+            "elections_with_unfindable_cards", "elections_with_missing_contest_mvr", "style_on", "style_off",
+            "identities_rechecked_after_cvrs_revised_in_place"]
 ASSUMPTIONS = ["pool labelling coherent (a batch is pooled or not); add_pool_contests applied under style (documented "
                "precondition of ONEAudit)", "A_i is computed by reference assorters written from the definitions "
                "(cross-checked against the real assorters by C02 and C14)"]
@@ -38,7 +39,26 @@ def run_shard(spec, rec):
     rng = random.Random(f"c03-{spec['seed']}-{spec['shard']}")
     for i in range(spec["n"]):
         es = E.gen_spec(rng, audit_types=("CARD_COMPARISON", "ONEAUDIT"))
+        if i % 3 == 0:
+            es["cvr_revisions"] = gen_revisions(rng, es)
         run_case(es, rec)
+
+
+def gen_revisions(rng, es):
+    """Up to 4 cards get, in one of their contests, the votes of another card of that contest (a corrected export)."""
+    revs = []
+    for _ in range(rng.randint(1, 4)):
+        i = rng.randrange(len(es["cards"]))
+        cids = sorted(es["cards"][i]["votes"])
+        if not cids:
+            continue
+        cid = rng.choice(cids)
+        donors = [c for c in es["cards"] if cid in c["votes"] and c["votes"][cid] != es["cards"][i]["votes"][cid]]
+        if not donors:
+            continue
+        how = "assign" if es["contests"][cid]["kind"] == "irv" or rng.random() < 0.5 else "update"
+        revs.append([i, cid, dict(rng.choice(donors)["votes"][cid]), how])
+    return revs
 
 
 def run_case(es, rec):
@@ -61,6 +81,14 @@ def run_case(es, rec):
         rec.count("elections_with_pooled_phantoms")
     if any(m["kind"] == "phantom" for m in es["mvrs"].values()):
         rec.count("elections_with_unfindable_cards")
+    if check_identities(es, sim, rec) and es.get("cvr_revisions"):
+        # the same objects after the CVRs were corrected in place and the margins recomputed from them
+        ok, _ = rec.guard("c03.revise", sim.revise_cvrs, es["cvr_revisions"])
+        if ok and check_identities(es, sim, rec):
+            rec.count("identities_rechecked_after_cvrs_revised_in_place")
+
+
+def check_identities(es, sim, rec):
     mvrs = [sim.mvr_for(i) for i in range(len(sim.cvr_list))]
     for cid, con in sim.contests.items():
         sc = es["contests"][cid]
@@ -86,7 +114,7 @@ def run_case(es, rec):
                     Bs.append(float(b))
                     As.append(sim.ref_A(i, cid, name))
             if failed:
-                return
+                return False
             n = len(idx)
             lhs = sum(Bs) / n - 0.5
             Abar = sum(As) / n
@@ -112,7 +140,8 @@ def run_case(es, rec):
                               {"contest": cid, "assertion": name, "mean(B)-1/2": lhs, "(2mean(A)-1)/(2(2u-v))": rhs,
                                "margin": v, "u": u, "n": n, "cvr_side_sum": sum(cside), "expected_cvr_side_sum": n * (v + 1) / 2,
                                "population_has": sorted(kinds), "use_style": sim.use_style})
-                return
+                return False
+    return True
 
 
 def brief(es):
